@@ -252,7 +252,12 @@ func (g *genState) handlesScript(thorough bool) {
 		case 1: // nested Iter
 			g.emit("itpairs %d", r.Range(1, 3))
 			if r.Chance(30) {
-				g.emit("itpairs %d", hg.stopJ())
+				// nested all-pairs is quadratic: j outer rounds × Len inner steps, keep the product small
+				j := hg.stopJ()
+				if n := g.s.size(); j*n > 20000 {
+					j = max(1, 20000/max(n, 1))
+				}
+				g.emit("itpairs %d", j)
 			}
 		case 2: // a Seq taken now, a bucket vanishes (often the head bucket) or is re-created, then used
 			k := r.Range(0, 3)
